@@ -1,13 +1,15 @@
+\* L1 history theorems: the tables are the last registration per tuple / the replayed lineage of copies
 SPECIFICATION Spec
 CONSTANTS
-  Kinds <- KMapDyn
-  Arities = {2}
+  Kinds <- KMapFast
+  Arities = {1, 2}
   NXs = {0}
   K = 2
-  MaxHist = 4
+  MaxHist = 3
   MaxCells = 9
-  OpClasses <- OpsTable
+  OpClasses <- OpsHistTable
   EmitMode <- ModeNone
+  Plans <- NoPlans
 CONSTRAINT Bound
 VIEW histvars
-INVARIANTS TypeOK RegIsHistory DispatchExact
+INVARIANTS TypeOK RegIsHistory TablesAreHistory DispatchExact
